@@ -39,13 +39,13 @@ def check(prop, tier, seed):
             if rnd.random() < 0.6:
                 hs.append(dict(id=i + 1, dir="out", ty=rnd.choice(["ALL", "V", "0"]), accept=rnd.random() < 0.8, when=rnd.choice(["pre", "post"]), mutate=False))
             else:
-                hs.append(dict(id=i + 1, dir="in", ty=rnd.choice(["ALL", "1", "D"]), accept=rnd.random() < 0.7, when="post", mutate=False))
+                hs.append(dict(id=i + 1, dir="in", ty=rnd.choice(["ALL", "1", "D", "d"]), accept=rnd.random() < 0.7, when="post", mutate=False))
         base = len(hs)
         for i in range(rnd.randint(1, 3)):
             if rnd.random() < 0.6:
-                hs.append(dict(id=base + i + 1, dir="out", ty=rnd.choice(["V", "0", "V", "ALL"]), accept=rnd.random() < 0.5, when="late", mutate=False))
+                hs.append(dict(id=base + i + 1, dir="out", ty=rnd.choice(["V", "0", "V", "ALL", "v"]), accept=rnd.random() < 0.5, when="late", mutate=False))
             else:
-                hs.append(dict(id=base + i + 1, dir="in", ty=rnd.choice(["1", "D", "0", "ALL"]), accept=rnd.random() < 0.7, when="late", mutate=False))
+                hs.append(dict(id=base + i + 1, dir="in", ty=rnd.choice(["1", "D", "0", "ALL", "d", "v"]), accept=rnd.random() < 0.7, when="late", mutate=False))
         confs.append(dict(handlers=hs, saveFailAt=rnd.choice([0, 0, 0, 4]), late=True))
     scns = []
     for i, c in enumerate(confs):
@@ -62,7 +62,8 @@ def check(prop, tier, seed):
         late_at = 0
         if c.get("late"):
             steps = [dict(a="send", ty="V"), dict(a="recv", ty="1"), dict(a="recv", ty="D"), dict(a="recv", ty="0"),
-                     dict(a="send", ty="V"), dict(a="recv", ty="1"), dict(a="recv", ty="D"), dict(a="recv", ty="0"), dict(a="send", ty="V")]
+                     dict(a="send", ty="V"), dict(a="recv", ty="1"), dict(a="recv", ty="D"), dict(a="recv", ty="0"), dict(a="send", ty="V"),
+                     dict(a="recv", ty="d"), dict(a="recv", ty="v"), dict(a="recv", ty="D")]
             late_at = 4
         scns.append(dict(id="d%d" % i, role="acceptor" if i % 2 == 0 else "initiator", handlers=c["handlers"],
                          saveFailAt=c["saveFailAt"], steps=steps, lateAt=late_at))
